@@ -246,18 +246,17 @@ theorem C13_str_kept_or_pooled (enumOrder : Option (List String)) (nBins : Nat)
     · right
       exact ⟨hk, rfl, by simp [hk]⟩
 
-/-- the real values of the column are among the "existing values" the fresh name avoids:
-automatic for `Utf8`/`Categorical` columns; for an `Enum` column it says that the values are
-declared categories (a polars invariant) -/
-def C13_valuesDeclared (enumOrder : Option (List String)) (feature : List (Option String)) : Prop :=
-  ∀ s, some s ∈ feature → s ∈ tbl_existing enumOrder feature
-
-theorem C13_valuesDeclared_none (feature : List (Option String)) : C13_valuesDeclared none feature :=
-  fun s hs => (tbl_mem_distinctVals feature s).2 hs
+/-- for `Utf8`/`Categorical` columns the real values of the column are exactly the "existing values"
+which the fresh name avoids (for an `Enum` column the corresponding fact, "the values are declared
+categories", is a polars invariant and appears as hypothesis `hdecl` below) -/
+theorem C13_valuesDeclared_none (feature : List (Option String)) (s : String) :
+    some s ∈ feature ↔ s ∈ tbl_existing none feature :=
+  (tbl_mem_distinctVals feature s).symm
 
 /-- a row keeps its value iff nothing is pooled or the value is one of the kept categories -/
 theorem C13_str_kept_iff (enumOrder : Option (List String)) (nBins : Nat)
-    (feature : List (Option String)) (hdecl : C13_valuesDeclared enumOrder feature)
+    (feature : List (Option String))
+    (hdecl : ∀ s, some s ∈ feature → s ∈ tbl_existing enumOrder feature)
     (r : Nat) (s : String) (hs : feature[r]? = some (some s)) :
     (binString enumOrder nBins feature).bins[r]? = some (some s) ↔
       ((binString enumOrder nBins feature).pooled = none ∨ s ∈ tbl_keep enumOrder nBins feature) := by
@@ -279,5 +278,100 @@ theorem C13_str_equal_share (enumOrder : Option (List String)) (nBins : Nat)
     (feature : List (Option String)) (r r' : Nat) (h : feature[r]? = feature[r']?) :
     (binString enumOrder nBins feature).bins[r]? = (binString enumOrder nBins feature).bins[r']? := by
   rw [tbl_bins_row_str, tbl_bins_row_str, h]
+
+/-- the renaming loop `while name in existing: name = "_" + name` ends with a fresh name within
+`existing.length + 1` rounds: the candidates have pairwise different lengths (pigeonhole) -/
+theorem C13_collision_loop_terminates (existing : List String) (name : String) (fuel : Nat)
+    (h : existing.length < fuel) : binString.fresh existing name fuel ∉ existing :=
+  tbl_fresh_not_mem existing name fuel (lt_of_le_of_lt List.countP_le_length h)
+
+/-- the candidates of the loop have different lengths, hence are pairwise distinct -/
+theorem C13_candidates_distinct (u v : Nat) (name : String) (h : u ≠ v) :
+    String.mk (List.replicate u '_') ++ name ≠ String.mk (List.replicate v '_') ++ name := by
+  intro he
+  have := congrArg String.length he
+  simp only [String.length_append, tbl_mk_eq, String.length_ofList, List.length_replicate] at this
+  omega
+
+/-- the pooled name never collides with an existing value: a real value of the column
+(`enumOrder = none`) resp. a declared category of the Enum -/
+theorem C13_no_collision (enumOrder : Option (List String)) (nBins : Nat) (feature : List (Option String))
+    (name : String) (h : (binString enumOrder nBins feature).pooled = some name) :
+    name ∉ (match enumOrder with
+      | some cats => cats
+      | none => distinctVals feature) := by
+  rw [tbl_pooled_str] at h
+  split at h
+  · cases h
+  · rw [← Option.some.inj h]
+    exact tbl_name_not_mem enumOrder nBins feature
+
+/-- `enumOrder = none`: the pooled name is not a value of the column -/
+theorem C13_no_collision_values (nBins : Nat) (feature : List (Option String))
+    (name : String) (h : (binString none nBins feature).pooled = some name) :
+    some name ∉ feature := by
+  have := C13_no_collision none nBins feature name h
+  simp only [] at this
+  rwa [tbl_mem_distinctVals] at this
+
+/-- when pooling happens (`n_bins_ef < #categories`): the pooled name is `"other k"` up to leading
+underscores, where `k = #categories − (n_bins_ef − 1) ≥ 2` is the number of pooled distinct
+categories -/
+theorem C13_other_count (enumOrder : Option (List String)) (nBins : Nat) (feature : List (Option String))
+    (hpool : tbl_sNBinsEf nBins feature < (tbl_vc enumOrder feature).length) :
+    let k := (tbl_vc enumOrder feature).length - (tbl_sNBinsEf nBins feature - 1)
+    2 ≤ k ∧
+    ((distinctVals feature).filter (fun s => !(tbl_keep enumOrder nBins feature).contains s)).length = k ∧
+    ∃ name u, (binString enumOrder nBins feature).pooled = some name ∧
+      name = String.mk (List.replicate u '_') ++ "other " ++ formatInteger k := by
+  intro k
+  have h1 := tbl_one_le_sNBinsEf nBins feature
+  refine ⟨by omega, tbl_pooled_count enumOrder nBins feature, ?_⟩
+  obtain ⟨u, hu⟩ := tbl_name_form enumOrder nBins feature
+  refine ⟨tbl_name enumOrder nBins feature, u, ?_, hu⟩
+  rw [tbl_pooled_str, if_neg (by omega)]
+
+/-- conversely nothing is pooled when the categories fit -/
+theorem C13_no_pooling (enumOrder : Option (List String)) (nBins : Nat) (feature : List (Option String))
+    (h : (tbl_vc enumOrder feature).length ≤ tbl_sNBinsEf nBins feature) :
+    (binString enumOrder nBins feature).pooled = none ∧
+    (binString enumOrder nBins feature).bins = feature := by
+  rw [tbl_binString_eq, if_pos h]
+  exact ⟨rfl, rfl⟩
+
+/-- `_format_integer` prints numbers below 1000 unchanged -/
+theorem C13_format_small (n : Nat) (h : n < 1000) : formatInteger n = toString n :=
+  tbl_formatInteger_small n h
+
+/-- the most frequent categories are kept, ties in natural order: `value_counts` is sorted by
+(count descending, natural order ascending), the kept categories are its first `n_bins_ef − 1`
+entries, so every kept category `a` and every pooled category `b` satisfy
+`count a > count b`, or `count a = count b` and `b` is not before `a` in the natural order -/
+theorem C13_top_k (enumOrder : Option (List String)) (nBins : Nat) (feature : List (Option String)) :
+    (tbl_vc enumOrder feature).Pairwise (fun a b =>
+      countOcc feature a > countOcc feature b ∨
+      (countOcc feature a = countOcc feature b ∧ catLt enumOrder b a = false)) ∧
+    tbl_keep enumOrder nBins feature = (tbl_vc enumOrder feature).take (tbl_sNBinsEf nBins feature - 1) ∧
+    ∀ a b, a ∈ tbl_keep enumOrder nBins feature → some b ∈ feature →
+      b ∉ tbl_keep enumOrder nBins feature →
+      countOcc feature a > countOcc feature b ∨
+      (countOcc feature a = countOcc feature b ∧ catLt enumOrder b a = false) := by
+  refine ⟨(tbl_vc_sorted enumOrder feature).imp (fun h => (tbl_vcLe_iff _ _ _ _).1 h), rfl, ?_⟩
+  intro a b ha hb hb'
+  exact (tbl_vcLe_iff _ _ _ _).1 (tbl_keep_before enumOrder nBins feature a b ha hb hb')
+
+/-- in particular every kept category is at least as frequent as every pooled one -/
+theorem C13_top_k_counts (enumOrder : Option (List String)) (nBins : Nat) (feature : List (Option String))
+    (a b : String) (ha : a ∈ tbl_keep enumOrder nBins feature) (hb : some b ∈ feature)
+    (hb' : b ∉ tbl_keep enumOrder nBins feature) : countOcc feature b ≤ countOcc feature a := by
+  rcases (C13_top_k enumOrder nBins feature).2.2 a b ha hb hb' with h | ⟨h, _⟩ <;> omega
+
+/-- at most `n_bins` labels (null label included) for `n_bins ≥ 2`; the number of distinct labels
+never exceeds the returned `n_bins` -/
+theorem C13_str_at_most_n_bins (enumOrder : Option (List String)) (nBins : Nat)
+    (feature : List (Option String)) :
+    (binString enumOrder nBins feature).bins.dedup.length ≤ (binString enumOrder nBins feature).nBins ∧
+    (2 ≤ nBins → (binString enumOrder nBins feature).nBins ≤ nBins) :=
+  ⟨tbl_sbins_distinct_le enumOrder nBins feature, fun h2 => tbl_sNBins_le enumOrder nBins h2 feature⟩
 
 end MD.Props
